@@ -51,7 +51,7 @@ pub fn c08_engine() -> FarmHist {
     FarmHist {
         name: "farm-history-positions",
         mon: FMon { c08: true, ..FMon::default() },
-        weights: FWeights { farm: 2, expand_farm: 0, close_farm: 1, open: 9, expand_pos: 6, close_pos: 8, withdraw: 10, lock_pm: 3, claim: 4, advance: 10, config: 1, bad: 2 },
+        weights: FWeights { farm: 2, expand_farm: 0, close_farm: 1, open: 9, expand_pos: 6, close_pos: 8, withdraw: 10, lock_pm: 3, claim: 4, advance: 10, config: 2, bad: 2 },
         max_ops_quick: 40,
         max_ops_thorough: 80,
         liquidate: false,
